@@ -192,6 +192,10 @@ func Registered(kind, key string) (any, any) {
 	return r[0], r[1]
 }
 
+// FillDecoded (engine only; a harness's model of a JSON decoder calls it): stores into *v a fully populated value of its
+// type with arbitrary scalars, except that the nilpos-th pointer on the chain "target, its first pointer field, ..." is nil.
+func FillDecoded(v any, nilpos int) { panic("vrt.FillDecoded is an engine intrinsic") }
+
 // Symbolic reports whether the harness runs under the symbolic engine (intrinsic returns true).
 func Symbolic() bool { return false }
 
